@@ -857,7 +857,17 @@ func genNegative(c *Ctx, valid [][]byte) (stream []byte, tag string) {
 	case r < 86: // blank lines / LF-only / odd separators before a valid message
 		pre := []string{"\r\n", "\n", "\r\n\r\n", " ", "\t"}[c.Rng.Intn(5)]
 		return append([]byte(pre), pick()...), "leading-" + strconv.Quote(pre)
-	case r < 93: // LF-only line ends and folded case
+	case r < 96 && r >= 90: // odd spacing in first lines and header lines
+		first := []string{"RTSP/1.0  200 OK", "RTSP/1.0   404  Not Found", "RTSP/1.0 200", "RTSP/1.0 200 ", "RTSP/1.0\t200 OK", "RTSP/1.0 200\tOK", " RTSP/1.0 200 OK",
+			"PLAY  rtsp://h/p RTSP/1.0", "PLAY rtsp://h/p  RTSP/1.0", " PLAY rtsp://h/p RTSP/1.0", "PLAY\trtsp://h/p RTSP/1.0", "PLAY rtsp://h/p RTSP/1.0 ", "PLAY rtsp://h/p RTSP/1.0 extra",
+			"PLAY rtsp://h/p\tRTSP/1.0", "\tPLAY\t rtsp://h/p \tRTSP/1.0\t", "PLAY \u00a0rtsp://h/p\u2003 RTSP/1.0", "OPTIONS * RTSP/1.0", "DESCRIBE * RTSP/1.0", "OPTIONS  *  RTSP/1.0"}[c.Rng.Intn(19)]
+		hdr := []string{"CSeq:1", "CSeq :1", "CSeq:  1  ", " CSeq: 1", ":novalue", "NoColon", "CSeq: 1\r\nCSeq: 2", "cseq: 1\r\nCSEQ: 2", "X-A:\tb\t", "Content-Length:0", "Content-Length:  2", "\u017fession: 7", "K: v: w", "K:", "\u00a0K\u2003:\u00a0v\u3000"}[c.Rng.Intn(15)]
+		body := ""
+		if strings.Contains(hdr, "Content-Length:  2") {
+			body = "hi"
+		}
+		return []byte(first + "\r\n" + hdr + "\r\n\r\n" + body), "spacing"
+	case r < 90: // LF-only line ends and folded case
 		s := pick()
 		if len(s) > 3000 {
 			s = s[:3000]
@@ -885,7 +895,25 @@ type rcase struct {
 	extraURL map[string]bool
 }
 
+// run: the cases are generated, driven and compared round by round (one round = the quick
+// budget), so that memory stays flat in the thorough tier
 func run(c *Ctx) {
+	rounds := 1
+	if c.Thorough() {
+		rounds = 5
+	}
+	if c.Search {
+		rounds *= 4
+	}
+	for r := 0; r < rounds; r++ {
+		runRound(c, r)
+		if c.Replay != "" {
+			break
+		}
+	}
+}
+
+func runRound(c *Ctx, round int) {
 	c.Res.Rule = "rt case = (generated message, continuation, bufio size, chunking): written by the real writer, read back by the real reader; stream case = 1..7 items back to back through receive; neg case = garbage / mutated / truncated / over-long / lying-length stream. Distinct by the op line; non-trivial when the stream has at least 4 bytes."
 	var cases []rcase
 	var wops []string
@@ -894,7 +922,7 @@ func run(c *Ctx) {
 	// ---- corpus / replay
 	for _, l := range c.CorpusLines() {
 		f := strings.Fields(l)
-		if len(f) < 2 || f[0] != "c14" {
+		if len(f) < 2 || f[0] != "c14" || round > 0 {
 			continue
 		}
 		switch {
@@ -915,7 +943,7 @@ func run(c *Ctx) {
 	var validWires [][]byte
 	if c.Replay == "" {
 		// ---- round trips of single messages through the direct readers
-		n := c.Budget(5000, 60000)
+		n := 5000
 		for i := 0; i < n; i++ {
 			var it item
 			chans := chanTables[c.Rng.Intn(len(chanTables))]
@@ -963,7 +991,7 @@ func run(c *Ctx) {
 			}
 		}
 		// ---- streams through receive
-		n = c.Budget(2500, 30000)
+		n = 2500
 		for i := 0; i < n; i++ {
 			chans := chanTables[c.Rng.Intn(4)]
 			if c.Rng.Chance(25) {
@@ -1000,13 +1028,13 @@ func run(c *Ctx) {
 		}
 		// all two-chunk splits of one short stream (every split point of the interesting region)
 		short := []byte("PLAY rtsp://h/p RTSP/1.0\r\nCSeq: 3\r\nContent-Length: 2\r\n\r\nhi$\x01\x00\x02xyRTSP/1.0 200 OK\r\nCSeq: 3\r\n\r\n")
-		for a := 1; a < len(short); a++ {
+		for a := 1; a < len(short) && round == 0; a++ {
 			for _, bs := range []int{16, 4096} {
 				cases = append(cases, rcase{kind: "recv", stream: short, chans: []int{0, 1, 2, 3}, d: delivery{buf: bs, mode: fmt.Sprintf("k%d", a)}, restWant: -1, tag: "all-splits"})
 			}
 		}
 		// ---- negative streams
-		n = c.Budget(5000, 60000)
+		n = 5000
 		for i := 0; i < n; i++ {
 			s, tag := genNegative(c, validWires)
 			d := genDelivery(c)
@@ -1016,12 +1044,14 @@ func run(c *Ctx) {
 		}
 		// the unbounded-buffering probes: one line of 1.5 MiB, one announced body of 100 MB
 		big := 3 << 19
-		cases = append(cases,
-			rcase{kind: "recv", stream: append(append([]byte("OPTIONS * RTSP/1.0\r\nX-Fill: "), longLine(big, 'z')...), []byte("\r\n\r\n")...), chans: []int{0, 1, 2, 3}, d: delivery{buf: 4096, mode: "a"}, restWant: -1, tag: "neg-huge-header-line", implOnly: true},
-			rcase{kind: "read-resp", stream: append(append([]byte("RTSP/1.0 200 "), longLine(big, 'z')...), []byte("\r\n\r\n")...), d: delivery{buf: 65536, mode: "s7"}, restWant: -1, tag: "neg-huge-status-line", implOnly: true},
-			rcase{kind: "recv", stream: []byte("ANNOUNCE rtsp://h/p RTSP/1.0\r\nCSeq: 2\r\nContent-Length: 100000000\r\n\r\nshort"), chans: []int{0, 1, 2, 3}, d: delivery{buf: 4096, mode: "a"}, restWant: -1, tag: "neg-absurd-content-length", implOnly: true},
-			rcase{kind: "read-resp", stream: []byte("RTSP/1.0 200 OK\r\nContent-Length: 100000000\r\n\r\n"), d: delivery{buf: 4096, mode: "1"}, restWant: -1, tag: "neg-absurd-content-length", implOnly: true},
-		)
+		if round == 0 {
+			cases = append(cases,
+				rcase{kind: "recv", stream: append(append([]byte("OPTIONS * RTSP/1.0\r\nX-Fill: "), longLine(big, 'z')...), []byte("\r\n\r\n")...), chans: []int{0, 1, 2, 3}, d: delivery{buf: 4096, mode: "a"}, restWant: -1, tag: "neg-huge-header-line", implOnly: true},
+				rcase{kind: "read-resp", stream: append(append([]byte("RTSP/1.0 200 "), longLine(big, 'z')...), []byte("\r\n\r\n")...), d: delivery{buf: 65536, mode: "s7"}, restWant: -1, tag: "neg-huge-status-line", implOnly: true},
+				rcase{kind: "recv", stream: []byte("ANNOUNCE rtsp://h/p RTSP/1.0\r\nCSeq: 2\r\nContent-Length: 100000000\r\n\r\nshort"), chans: []int{0, 1, 2, 3}, d: delivery{buf: 4096, mode: "a"}, restWant: -1, tag: "neg-absurd-content-length", implOnly: true},
+				rcase{kind: "read-resp", stream: []byte("RTSP/1.0 200 OK\r\nContent-Length: 100000000\r\n\r\n"), d: delivery{buf: 4096, mode: "1"}, restWant: -1, tag: "neg-absurd-content-length", implOnly: true},
+			)
+		}
 	}
 
 	// ---- driver: writers/spec first
